@@ -13,7 +13,9 @@ use std::time::Duration;
 #[derive(Debug, Clone, Serialize, Deserialize)]
 pub struct WideCase {
     /// per target: bit 0 = also a cmd_stdout input, bit 1 = declares an output file,
-    /// bit 2 = lives in the imported project `sub`
+    /// bit 2 = lives in the imported project `sub`, bit 3 = the script appends to its own
+    /// declared input (a lock file refreshed in place, a formatter), bit 4 = the input file
+    /// carries a modification time in the future
     pub targets: Vec<u8>,
     /// every script waits (bounded) until all scripts have started, so that they all finish and
     /// store their state together
@@ -28,7 +30,7 @@ pub struct WideCase {
 
 pub fn wide_case() -> impl Strategy<Value = WideCase> {
     (
-        prop::collection::vec(0u8..8, 2..=16),
+        prop::collection::vec(0u8..32, 2..=16),
         prop::bool::weighted(0.8),
         1u8..=2,
         any::<u16>(),
@@ -37,7 +39,7 @@ pub fn wide_case() -> impl Strategy<Value = WideCase> {
     )
         .prop_map(|(targets, rendezvous, repeats, edit_mask, runtime_threads, one_project)| WideCase {
             // half of the cases keep every target in the root project (one shared .zinoma)
-            targets: targets.into_iter().map(|k| if one_project { k & 3 } else { k }).collect(),
+            targets: targets.into_iter().map(|k| if one_project { k & !4 } else { k }).collect(),
             rendezvous,
             repeats,
             edit_mask,
@@ -81,7 +83,11 @@ pub fn eval_wide(case: &WideCase, which: &str) -> CaseResult {
         } else {
             String::new()
         };
-        let body = format!("{}\nmkdir -p out && cat in/w{i}.txt > out/w{i}.txt", wait, i = i);
+        let self_modifying = if k & 8 != 0 { format!("\necho \"built by w{i}\" >> in/w{i}.txt", i = i) } else { String::new() };
+        let body = format!("{}\nmkdir -p out && cat in/w{i}.txt > out/w{i}.txt{}", wait, self_modifying, i = i);
+        if k & 16 != 0 {
+            set_mtime(&sb.path(&format!("{}/in/w{}.txt", dir, i)), 2_200_000_000, 0);
+        }
         let mut doc = json!({"build": build_script(&tid(case, i), &body), "input": input});
         if k & 2 != 0 {
             doc["output"] = json!([{"paths": [format!("out/w{}.txt", i)]}]);
@@ -114,6 +120,8 @@ pub fn eval_wide(case: &WideCase, which: &str) -> CaseResult {
             if case.rendezvous { "finish-together".into() } else { "free-running".into() },
             format!("runtime-threads-{}", case.runtime_threads),
             if any_sub { "two-projects".into() } else { "one-project".into() },
+            if case.targets.iter().any(|k| k & 8 != 0) { "script-writes-own-input".into() } else { "inputs-left-alone".into() },
+            if case.targets.iter().any(|k| k & 16 != 0) { "future-dated-input".into() } else { "past-dated-inputs".into() },
         ],
         sample: json!({"targets": n, "kinds": case.targets, "finish_together": case.rendezvous, "edited": edited, "runtime_threads": case.runtime_threads}),
         ..Default::default()
@@ -223,4 +231,116 @@ pub fn eval_wide(case: &WideCase, which: &str) -> CaseResult {
 pub fn replay_wide(v: &Value) -> Result<CaseResult, String> {
     let c: WideCase = serde_json::from_value(v["case"].clone()).map_err(|e| format!("bad wide case: {}", e))?;
     Ok(eval_wide(&c, v["which"].as_str().unwrap_or("c03")))
+}
+
+// ---------------------------------------------------------------------------
+// C17 (wide antichain): many mutually independent builds and services must all be in progress
+// at the same time, whatever their number.
+
+#[derive(Debug, Clone, Serialize, Deserialize)]
+pub struct AntichainCase {
+    /// number of independent build targets (9..=40)
+    pub builds: usize,
+    /// number of independent services requested next to them (0..=4)
+    pub services: usize,
+    pub runtime_threads: u8,
+}
+
+pub fn antichain_case(max: usize) -> impl Strategy<Value = AntichainCase> {
+    (9usize..=max, 0usize..=4, prop::sample::select(vec![0u8, 0, 1, 2, 4])).prop_map(|(builds, services, runtime_threads)| AntichainCase {
+        builds,
+        services,
+        runtime_threads,
+    })
+}
+
+pub fn eval_antichain(case: &AntichainCase) -> CaseResult {
+    set_runtime_threads(case.runtime_threads);
+    let sb = Sandbox::new("c17w");
+    let total = case.builds + case.services;
+    let mut targets = Map::new();
+    let mut args = vec![];
+    // every script registers itself, then waits (bounded) until all the others are there too
+    let meet = |i: usize| {
+        format!(
+            "mkdir -p \"$ZV_ROOT/rv\"; : > \"$ZV_ROOT/rv/{i}\"; k=0; while [ \"$(ls \"$ZV_ROOT/rv\" | wc -l)\" -lt {total} ] && [ $k -lt 400 ]; do sleep 0.02; k=$((k+1)); done; if [ \"$(ls \"$ZV_ROOT/rv\" | wc -l)\" -lt {total} ]; then echo \"{i} $(ls \"$ZV_ROOT/rv\" | wc -l)\" >> \"$ZV_ROOT/alone\"; fi",
+            i = i,
+            total = total
+        )
+    };
+    for i in 0..case.builds {
+        let name = format!("b{}", i);
+        targets.insert(name.clone(), json!({"build": build_script(&name, &meet(i))}));
+        args.push(name);
+    }
+    for j in 0..case.services {
+        let name = format!("s{}", j);
+        targets.insert(
+            name.clone(),
+            json!({"service": format!("echo \"V {} $$\" >> \"$ZV_TRACE\"\n{}\nexec sleep 100000", name, meet(case.builds + j))}),
+        );
+        args.push(name);
+    }
+    write_project(&sb.path("proj"), &json!({"targets": targets}));
+    let mut z = spawn_zinoma(&sb, &sb.path("proj"), &args, &[]);
+    // builds end by themselves; with services zinoma stays: wait for all build finish lines
+    let deadline = std::time::Instant::now() + Duration::from_secs(40);
+    let mut exited = None;
+    loop {
+        if let Some(s) = z.try_exit() {
+            exited = Some(s);
+            break;
+        }
+        let t = sb.trace();
+        let done = (0..case.builds).filter(|i| finished(&t, &format!("b{}", i)) > 0).count();
+        if done == case.builds && case.services > 0 {
+            break;
+        }
+        if std::time::Instant::now() > deadline {
+            break;
+        }
+        std::thread::sleep(Duration::from_millis(20));
+    }
+    if exited.is_none() {
+        z.signal(libc::SIGTERM);
+    }
+    let out = z.wait(Duration::from_secs(15), false);
+    let alone = std::fs::read_to_string(sb.path("alone")).unwrap_or_default();
+    let t = sb.trace();
+    let done = (0..case.builds).filter(|i| finished(&t, &format!("b{}", i)) > 0).count();
+    let mut res = CaseResult {
+        nontrivial: true,
+        fingerprint: format!("{}|{}|{}", case.builds / 4, case.services, case.runtime_threads),
+        classes: vec![
+            format!("independent-builds-{}", if case.builds > 24 { "25+" } else if case.builds > 16 { "17-24" } else { "9-16" }),
+            format!("services-{}", case.services),
+            format!("runtime-threads-{}", case.runtime_threads),
+        ],
+        sample: json!({"independent_builds": case.builds, "services": case.services, "runtime_threads": case.runtime_threads, "all_overlapped": alone.is_empty()}),
+        ..Default::default()
+    };
+    if done < case.builds {
+        res.inconclusive = Some("not every build finished within the budget".into());
+    }
+    if !alone.is_empty() {
+        let first = alone.lines().next().unwrap_or("");
+        let msg = format!(
+            "{} independent builds and {} services were requested together, but they were never all in progress at the same time: script #{} waited 8 s and saw only {} of {} started (a target with nothing to wait for was held back)",
+            case.builds,
+            case.services,
+            first.split(' ').next().unwrap_or("?"),
+            first.split(' ').nth(1).unwrap_or("?"),
+            total
+        );
+        res.inconclusive = None;
+        res.signature = Some("bb-c17w:not-all-concurrent".into());
+        res.replay = json!({"engine": "BB-c17wide", "case": serde_json::to_value(case).unwrap(), "message": msg, "alone": alone, "stderr_tail": out.stderr.lines().rev().take(5).collect::<Vec<_>>()});
+        res.violation = Some(msg);
+    }
+    res
+}
+
+pub fn replay_antichain(v: &Value) -> Result<CaseResult, String> {
+    let c: AntichainCase = serde_json::from_value(v["case"].clone()).map_err(|e| format!("bad case: {}", e))?;
+    Ok(eval_antichain(&c))
 }
